@@ -783,6 +783,8 @@ class Frame:
             if self.ev.index.has_module(o.name):
                 return self.ev.lookup_global(self.ev.index.module(o.name), attr, node)
             raise AnalysisError("engine B: unmodelled module attribute %s" % q)
+        if isinstance(o, Native) and o.name in ("bytes", "bytearray") and attr == "maketrans":
+            return Native(_b_maketrans, "bytes.maketrans")
         if hasattr(o, "getattr"):
             return o.getattr(self, attr, node)
         if isinstance(o, list):
@@ -907,7 +909,7 @@ def _b_bytes(ev, args, kw, node):
     v = args[0]
     if isinstance(v, int):
         return [0] * v
-    if isinstance(v, (list, tuple)):
+    if isinstance(v, (list, tuple, range)):
         return list(v)
     if hasattr(v, "to_bytes_like"):
         return v.to_bytes_like()
@@ -982,6 +984,22 @@ def _b_divmod(ev, args, kw, node):
     if not bb.is_const() or bb.c <= 0:
         raise AnalysisError("engine B: divmod by a non-constant or non-positive value")
     return tuple(B.divmod_const(Aff.of(a), int(bb.c)))
+
+
+def _b_maketrans(ev, args, kw, node):
+    a, b = args
+    if isinstance(a, range):
+        a = list(a)
+    if isinstance(b, range):
+        b = list(b)
+    if not (isinstance(a, list) and isinstance(b, list) and all(isinstance(x, int) for x in a + b)):
+        raise AnalysisError("engine B: maketrans of non-constant arguments")
+    if len(a) != len(b):
+        raise PyRaise("ValueError", node)
+    table = list(range(256))
+    for x, y in zip(a, b):
+        table[x] = y
+    return table
 
 
 def _b_anyall(is_any):
